@@ -19,6 +19,7 @@ package composite
 import (
 	"fmt"
 	"metacontroller/pkg/controller/common"
+	commonv1 "metacontroller/pkg/controller/common/api/v1"
 	v2 "metacontroller/pkg/controller/common/api/v2"
 
 	"k8s.io/apimachinery/pkg/runtime/schema"
@@ -37,6 +38,9 @@ func (pc *parentController) syncRollingUpdate(parentRevisions []*parentRevision,
 	// Give the latest revision any children it desires that aren't claimed yet,
 	// or that don't need any changes to match the desired state.
 	latest := parentRevisions[0]
+	// ControllerRevisions record children by their name relative to the parent,
+	// so look up observed children the same way.
+	observed := observedChildren.Convert(latest.parent)
 	if latest.syncResult.Status == nil {
 		// The hook returned no status, but we record the rollout state in it.
 		latest.syncResult.Status = make(map[string]interface{})
@@ -65,7 +69,7 @@ func (pc *parentController) syncRollingUpdate(parentRevisions []*parentRevision,
 			}
 			// This child is claimed by another revision, but if it already matches
 			// the desired state in the latest revision, we can move it immediately.
-			child := observedChildren.FindGroupKindName(gvk.GroupKind(), name)
+			child := observed.FindGroupKindName(gvk.GroupKind(), name)
 			if child == nil {
 				// The child wasn't observed, so we don't know if it'll match latest.
 				continue
@@ -116,7 +120,7 @@ func (pc *parentController) syncRollingUpdate(parentRevisions []*parentRevision,
 			// We only continue to push more children into the latest revision if all
 			// the children already in the latest revision are happy, where "happy" is
 			// defined by the statusChecks in each child type's updateStrategy.
-			if err := pc.shouldContinueRolling(latest, observedChildren); err != nil {
+			if err := pc.shouldContinueRolling(latest, observed); err != nil {
 				// Add status condition to explain what we're waiting for.
 				updatedCondition := &dynamicobject.StatusCondition{
 					Type:    "Updated",
@@ -164,7 +168,7 @@ func (pc *parentController) syncRollingUpdate(parentRevisions []*parentRevision,
 	return nil
 }
 
-func (pc *parentController) shouldContinueRolling(latest *parentRevision, observedChildren v2.UniformObjectMap) error {
+func (pc *parentController) shouldContinueRolling(latest *parentRevision, observedChildren commonv1.RelativeObjectMap) error {
 	// We continue rolling only if all children claimed by the latest revision
 	// are updated and were observed in a "happy" state, according to the
 	// user-supplied, resource-specific status checks.
